@@ -126,6 +126,11 @@ def work(tier, seed):
                     longer = [tg for tg in ch if tg.get("momentum", 0) or tg["t"] in ("rmsprop", "adagrad")][:2]
                     if longer and "extra" not in lay:
                         units.append({"layout": lay, "targets": longer, "depth": 4, "warmups": [4], "dtypes": ["f64"]})
+    # long horizon on the layouts without a refresh period (the period > 1 layouts hit the known finding F3 sooner or later)
+    for li in (1, 3):
+        sel = [tg for j, tg in enumerate(tgs) if (j + li + seed) % (9 if tier == "quick" else 3) == 0]
+        for ch in common.chunks(sel, 2):
+            units.append({"layout": LAYOUTS[li], "targets": ch, "depth": 10, "warmups": [2], "dtypes": ["f64"], "long": True})
     return units
 
 
@@ -254,7 +259,19 @@ def run_unit(unit):
                 continue
             depth = min(unit["depth"], eff + 2) if eff == start else eff + 1
             for pdtype in unit["dtypes"]:
-                for h in itertools.product(masks, repeat=depth):
+                if unit.get("long"):
+                    # long horizon: every periodic mask pattern of period <= 2 over 10 steps (norm transfer at every later step)
+                    seen, hs = set(), []
+                    for period in (1, 2):
+                        for pat in itertools.product(masks, repeat=period):
+                            h = tuple(tuple(pat[t % period]) for t in range(10))
+                            if h not in seen:
+                                seen.add(h)
+                                hs.append(h)
+                    res["stats"]["long_histories"] = res["stats"].get("long_histories", 0) + len(hs)
+                else:
+                    hs = itertools.product(masks, repeat=depth)
+                for h in hs:
                     hist = [list(m) for m in h]
                     # one variant with a present-but-all-zero gradient of the second parameter at the first step >= start
                     za = (1, start - 1) if (len(hist) >= start and hist[start - 1][1] and all(any(m) for m in hist[: start - 1])) else None
